@@ -20,24 +20,30 @@ NEXT = "((int)(((unsigned int)(Random_factor * (S))) % (unsigned int)Random_cong
 
 
 def unit_seed():
-    f = Fn("law_set_random_seed", LAW, r"^void law_set_random_seed\(int seed\)\s*$", rewrites=[NEWSTYLE_SEED],
-           contract="\n".join(["__CPROVER_requires(Random_Old_Style)", "__CPROVER_assigns(Random_value)",
-                               "__CPROVER_ensures(Random_value == (seed > 0 ? seed : __CPROVER_old(Random_value)))"]))
+    f = Fn("law_set_random_seed", LAW, r"^void law_set_random_seed\(int seed\)\s*$",
+           rewrites=[(r"Random_gen\.seed\(\(unsigned\) seed\);", "VF_gen_seed((unsigned) seed);", 1)],
+           contract="\n".join(["__CPROVER_assigns(Random_value, g_gen_seed, g_gen_nseed)",
+                               "__CPROVER_ensures(Random_value == (seed > 0 ? seed : __CPROVER_old(Random_value)))",
+                               # new-style generator (std::mt19937, a ghost here): a positive seed always (re)seeds it, whatever was requested before
+                               "__CPROVER_ensures((seed > 0 && !Random_Old_Style) ==> (g_gen_seed == (unsigned) seed && g_gen_nseed == __CPROVER_old(g_gen_nseed) + 1))",
+                               "__CPROVER_ensures((seed <= 0 || Random_Old_Style) ==> g_gen_nseed == __CPROVER_old(g_gen_nseed))"]))
     g = Fn("law_get_random_seed", LAW, r"^int law_get_random_seed\(void\)\s*$")
     h = """
 void vf_harness(void)
 {
   vf_havoc_inputs();
-  Random_value = W_state;
+  Random_value = W_state; Random_Old_Style = W_old ? 1 : 0;
   law_set_random_seed(W_seed);
   __CPROVER_assert(law_get_random_seed() == (W_seed > 0 ? W_seed : W_state), "the seed read back is the seed given (non-positive seeds leave the generator unchanged, as documented)");
   VF_REACH();
 }
 """
-    return Unit("C13.law_set_random_seed", [g, f], prelude=PRE, harness=h, inputs=[("int", "W_state"), ("int", "W_seed")], enforce="law_set_random_seed",
-                claim="law_set_random_seed: a positive seed becomes the generator state, a non-positive one leaves it unchanged; nothing else is written",
-                assumptions=["old-style generator (library default); the std::mt19937 branch is not under contract (reaching it fails an obligation)"],
-                canaries=[{"fn": "law_set_random_seed", "rx": r"if \(seed > 0\)", "rp": "if (seed > 1)", "expect": r"postcondition|assertion"}])
+    pre = PRE + "unsigned g_gen_seed, g_gen_nseed;\nstatic void VF_gen_seed(unsigned s) { g_gen_seed = s; g_gen_nseed = g_gen_nseed + 1; }\n"
+    return Unit("C13.law_set_random_seed", [g, f], prelude=pre, harness=h, inputs=[("int", "W_state"), ("int", "W_seed"), ("int", "W_old")], enforce="law_set_random_seed",
+                claim=("law_set_random_seed: a positive seed becomes the generator state (old style) and always re-seeds the std::mt19937 generator (new style, a ghost recording the "
+                       "seeding), a non-positive one leaves everything unchanged; nothing else is written"),
+                assumptions=["std::mt19937 is a ghost: only the fact and the value of its seeding are tracked"],
+                canaries=[{"fn": "law_set_random_seed", "rx": r"Random_value = seed;", "rp": "Random_value = seed + 1;", "expect": r"postcondition|assertion"}])
 
 
 def unit_uniform():
@@ -237,7 +243,7 @@ void vf_harness(void)
                 canaries=[{"fn": "%s::getSimulate" % cls, "rx": r"if \(FFFF\(vmin\) && FFFF\(vmax\)\)", "rp": "if (FFFF(vmin) || FFFF(vmax))", "expect": r"assertion"}])
 
 
-def unit_data_to_target(NP=2, NDM=1):
+def unit_data_to_target(NP=2, NDM=1, grid=False):
     """conditional simulations reproduce each datum exactly at a target coinciding with it — and only there: the final data-to-target
     assignment of the turning bands (CalcSimuTurningBands::_updateData2ToTarget), point-target branch"""
     pre = """
@@ -252,23 +258,30 @@ typedef _Bool bool;
 #define FFFF(x) ((x) != (x) || (x) > TEST_COMP)
 #define ELOC_GAUSFAC 11
 #define ELOC_SIMU 12
+#define VF_GRID %d
 int nondet_int(void);
 int g_oob, g_nset[NP]; double g_val[NP];
 static int _getNVar(void) { return 1; }
 static int getNbSimu(void) { return 1; }
 /* Db handles: 1 = dbin (W_nin samples), 2 = dbout (W_nout samples); every access is checked against the sample count of ITS data base */
+static void VF_getSampleCoordinatesInPlace(int db, int i, double* c);
 static int VF_getSampleNumber(int db) { return db == 1 ? W_nin : W_nout; }
 static int VF_getNDim(int db) { return W_ndim; }
 static double VF_getExtensionDiagonal(int db) { return 1.; }
 static const bool* VF_getActiveArray(int db) { return db == 1 ? W_actin : W_actout; }
-static bool VF_isGrid(int db) { return 0; }
+static bool VF_isGrid(int db) { return VF_GRID; }
 static void VF_getSampleCoordinatesInPlace(int db, int i, double* c)
 {
   if (i < 0 || i >= VF_getSampleNumber(db)) { g_oob = 1; return; }
   for (int d = 0; d < NDM; d++) c[d] = ((db == 1) ? W_cin[i * NDM + d] : W_cout[i * NDM + d]) ? 1. : 0.;
 }
-static int VF_coordinateToRank(int db, const double* c, bool centered, double eps) { return nondet_int(); }
-static void VF_rankToCoordinatesInPlace(int db, int rank, double* c) {}
+/* DbGrid::coordinateToRank / rankToCoordinatesInPlace on the ghost target grid: the node lying at these coordinates (or -1), the coordinates of a node */
+static int VF_coordinateToRank(int db, const double* c, bool centered, double eps)
+{
+  for (int k = 0; k < NP; k++) if (k < W_nout) { bool same = 1; for (int d = 0; d < NDM; d++) if (d < W_ndim && c[d] != (W_cout[k * NDM + d] ? 1. : 0.)) same = 0; if (same) return k; }
+  return -1;
+}
+static void VF_rankToCoordinatesInPlace(int db, int rank, double* c) { VF_getSampleCoordinatesInPlace(2, rank, c); }
 static double VF_getZVariable(int db, int i, int ivar) { if (db != 1 || i < 0 || i >= W_nin) { g_oob = 1; return 0.; } return W_z[i]; }
 static double VF_getSimvar(int db, int loc, int i, int isimu, int ivar, int icase, int nbsimu, int nvar) { return VF_getZVariable(db, i, 0); }
 static void VF_setSimvar(int db, int loc, int i, int isimu, int ivar, int icase, int nbsimu, int nvar, double v)
@@ -276,7 +289,7 @@ static void VF_setSimvar(int db, int loc, int i, int isimu, int ivar, int icase,
   if (db != 2 || i < 0 || i >= W_nout) { g_oob = 1; return; }
   g_nset[i] = g_nset[i] + 1; g_val[i] = v;
 }
-""" % (NP, NDM)
+""" % (NP, NDM, 1 if grid else 0)
     f = Fn("CalcSimuTurningBands::_updateData2ToTarget", "src/Simulation/CalcSimuTurningBands.cpp",
            r"^void CalcSimuTurningBands::_updateData2ToTarget\(Db \*dbin,[^{]*?bool flag_dgm\)\s*$",
            csig="void _updateData2ToTarget(int dbin, int dbout, int icase, bool flag_pgs, bool flag_dgm)",
@@ -292,6 +305,8 @@ void vf_harness(void)
   vf_havoc_inputs();
   __CPROVER_assume(1 <= W_nin && W_nin <= NP && 1 <= W_nout && W_nout <= NP && 1 <= W_ndim && W_ndim <= NDM);
   for (int k = 0; k < NP; k++) { __CPROVER_assume(!FFFF(W_z[k])); g_nset[k] = 0; }
+  if (VF_GRID) for (int k = 0; k < NP; k++) for (int m = 0; m < k; m++) if (k < W_nout)
+  { bool differ = 0; for (int d = 0; d < NDM; d++) if (d < W_ndim && ((W_cout[k * NDM + d] ? 1 : 0) != (W_cout[m * NDM + d] ? 1 : 0))) differ = 1; __CPROVER_assume(differ); }   /* the nodes of a grid are distinct */
   g_oob = 0;
   _updateData2ToTarget(1, 2, 0, 0, 0);
   __CPROVER_assert(!g_oob, "every sample is read from / written to the data base it belongs to, within its sample count");
@@ -309,27 +324,28 @@ void vf_harness(void)
     else
     {
       __CPROVER_assert((g_nset[ik] > 0) == coincide, "a target receives a datum exactly when an active datum lies at its own location");
-      if (coincide) __CPROVER_assert(value_ok, "the value it receives is the value of a datum lying at its own location");
+      if (coincide) __CPROVER_assert(value_ok, "the value it receives is the value of an ACTIVE datum lying at its own location");
     }
   }
   VF_REACH();
 }
 """
-    return Unit("C13.updateData2ToTarget.points", [f], prelude=pre, harness=h, pre_inputs="typedef _Bool bool;\n", unwind=NP * NDM + 2, checks=["--bounds-check", "--pointer-check"],
+    return Unit("C13.updateData2ToTarget.%s" % ("grid" if grid else "points"), [f], prelude=pre, harness=h, pre_inputs="typedef _Bool bool;\n", unwind=NP * NDM + 2, checks=["--bounds-check", "--pointer-check"],
                 backends=("cvc5", "minisat", "cadical"), timeout=900,
                 inputs=[("int", "W_nin"), ("int", "W_nout"), ("int", "W_ndim"), ("bool", "W_cin", str(NP * NDM)), ("bool", "W_cout", str(NP * NDM)),
                         ("double", "W_z", str(NP)), ("bool", "W_actin", str(NP)), ("bool", "W_actout", str(NP))],
                 bounded="%d data, %d targets, %d space dimensions; unwind %d with unwinding assertions" % (NP, NP, NDM, NP * NDM + 2),
-                claim=("CalcSimuTurningBands::_updateData2ToTarget, point-target branch (real text; the two data bases are ghosts with their own sample counts, coordinates and "
+                claim=("CalcSimuTurningBands::_updateData2ToTarget, %s branch (real text;" % ("grid-target" if grid else "point-target") + " the two data bases are ghosts with their own sample counts, coordinates and "
                        "selections): a target receives a datum exactly when an active datum lies at ITS OWN location, and then the value of such a datum; masked targets untouched; "
                        "no sample is read from the wrong data base or beyond its sample count"),
-                assumptions=["single variable, single simulation, no PGS/DGM", "grid-target branch excluded (isGrid() false)",
+                assumptions=["single variable, single simulation, no PGS/DGM", "this unit: isGrid() is %s; DbGrid::coordinateToRank returns the node lying at the coordinates (or -1)" % grid,
                              "coordinates on the unit lattice {0,1}^ndim, field diagonal 1 (so that 'same location' is decided without floating-point reasoning)"],
-                canaries=[{"fn": "CalcSimuTurningBands::_updateData2ToTarget", "rx": r"if \(dist <= eps2\) ip_close = ip;", "rp": "ip_close = ip;", "expect": r"assertion"}])
+                canaries=[{"fn": "CalcSimuTurningBands::_updateData2ToTarget", "rx": r"if \(rank < 0 \|\| !activeArrayOut\[rank\]\) continue;", "rp": "if (rank < 0) continue;", "expect": r"assertion"}] if grid else
+                         [{"fn": "CalcSimuTurningBands::_updateData2ToTarget", "rx": r"if \(dist <= eps2\) ip_close = ip;", "rp": "ip_close = ip;", "expect": r"assertion"}])
 
 
 def units(tier):
-    return [unit_seed(), unit_uniform(), unit_int_uniform(), unit_degenerate_seed(), unit_gibbs_draw("GibbsMulti"), unit_gibbs_draw("GibbsMultiMono"), unit_data_to_target(2, 1 if tier == "quick" else 2)]
+    return [unit_seed(), unit_uniform(), unit_int_uniform(), unit_degenerate_seed(), unit_gibbs_draw("GibbsMulti"), unit_gibbs_draw("GibbsMultiMono"), unit_data_to_target(2, 1 if tier == "quick" else 2), unit_data_to_target(2, 1 if tier == "quick" else 2, grid=True)]
 
 
 META = {
